@@ -61,8 +61,14 @@ pub fn day_inside(u: &mut Unstructured, margin: i64) -> Result<i64> {
 
 /// display year (never 0), boundary-dense
 pub fn year(u: &mut Unstructured) -> Result<i64> {
-    let k = u.below(10)?;
+    let k = u.below(11)?;
     let y = match k {
+        // where the number of digits changes: 9|10, 99|100, 999|1000, 9999|10000, ... (both eras)
+        10 => {
+            let p = u.int_in_range(1..=6u32)?;
+            let sign = if u.coin(1, 3)? { -1 } else { 1 };
+            sign * (10i64.pow(p) + u.range_i64(-1, 1)?)
+        }
         0 => cal::MIN_YMD.0 + u.below(3)? as i64,
         1 => cal::MAX_YMD.0 - u.below(3)? as i64,
         2 | 3 => u.range_i64(-401, 401)?,
